@@ -311,14 +311,31 @@ func positionToOffset(lines []string, pos Position) int {
 		offset += len(lines[i]) + 1 // +1 for newline
 	}
 	if pos.Line < len(lines) {
-		lineLen := len(lines[pos.Line])
-		if pos.Character < lineLen {
-			offset += pos.Character
-		} else {
-			offset += lineLen
-		}
+		offset += utf16ColumnToByteOffset(lines[pos.Line], pos.Character)
 	}
 	return offset
+}
+
+// utf16ColumnToByteOffset converts an LSP character offset (UTF-16 code units) into a byte offset
+// within line. Columns past the end of the line clamp to the line end (a trailing '\r' belongs to
+// the line terminator), and a column that falls inside a surrogate pair maps to the start of that character.
+func utf16ColumnToByteOffset(line string, character int) int {
+	end := len(line)
+	if end > 0 && line[end-1] == '\r' {
+		end--
+	}
+	units := 0
+	for i, r := range line[:end] {
+		w := 1
+		if r >= 0x10000 {
+			w = 2
+		}
+		if units+w > character {
+			return i
+		}
+		units += w
+	}
+	return end
 }
 
 // GetWordAtPosition returns the word at the given position.
